@@ -11,7 +11,10 @@ written, also when earlier calls timed out) and `pipeline_stream_own` (reading t
 yields for each request exactly its own response, HEAD included).
 
 Both repaired defects are kept as counterexample theorems about the old decisions (`requireDrained = false`,
-`headSkips = false`).
+`headSkips = false`).  A third repaired defect (HostClient left `SkipBody` set on the caller's Response after a HEAD
+request, so the next non-HEAD call done with the same Response skipped its body and pooled the connection with the
+body unread) is outside the model's vocabulary — the model skips a body exactly for HEAD requests, which is what the
+repaired code does — and is tied by the harness (calls that reuse one Response).
 
 Assumptions (recorded, not axioms): the response head parser is a parameter (`Framing.parseHead`) and the server is
 well-behaved per request (`wfResp`: a head the parser recognises whatever follows, then exactly the declared body, no
@@ -96,6 +99,14 @@ theorem writer_written_implies_queued :
 theorem reader_stops_after_failed_read :
     Gen.pipeShape_reader_afterRead =
       ["for true | if err != nil => send w.done", "for true | if err != nil => return", "for true => send w.done"] := by decide
+
+/-- A streamed body can also be dropped without CloseBodyStream: by ReleaseResponse, by resp.Reset(), or by using the
+    same Response for the next Do (which resets it).  For the pool that is the same event as an early close after
+    `readK` bytes (`Call.readK`), and the release-vs-close decision must be taken from the framing the body was read
+    with: `Response.Reset` drops the body stream (resetSkipHeader → ResetBody → closeBodyStream, i.e. the close
+    callback with requestStream.unread()) BEFORE it resets the header that carries Content-Length / chunked. -/
+theorem response_reset_drops_stream_before_header :
+    Gen.respShape_Reset = ["ReleaseBody", "resetSkipHeader", "Header.Reset"] := by decide
 
 /-! ### the toy framing is a framing (non-vacuity of `wfResp`) -/
 
